@@ -606,6 +606,22 @@ func runC08(tier string, seed uint64) int {
 			tried++ // a repeat of a signature already reported in this run (listed findings never count)
 		}
 	}
+	if selftestDivergence != nil {
+		run := *selftestDivergence
+		j := *run.Job
+		j.KeepOut = true
+		run.Job = &j
+		rep := &Replay{Property: "C08", Clause: "same resources, different output", Seed: seed, Scenario: "self-test:" + j.ID, Runs: []Run{run, run}, Repeat: 12,
+			Detail: map[string]string{"variation": "none: the same files under the same seeded schedule, executed twice"}}
+		if _, v := runReplay(rep); v.Violated {
+			rep.Note = "[same schedule] " + v.Desc
+			rep.Observed = v.Digests
+			rep.Sig = "c08:" + shortHash("unseeded|"+normaliseDesc(v.Desc))
+			rp.violation(rep)
+		} else {
+			fmt.Printf("note: the self-test divergence did not show again in 12 repeats\n")
+		}
+	}
 	canaryHits := rp.canaries()
 	// evidence
 	for i := 0; i < len(cases) && len(st.samples) < 3; i += 1 + len(cases)/3 {
@@ -792,7 +808,7 @@ func c08Minimise(mm *c08Mismatch, seed uint64) *Replay {
 		full := c08Steps(c)
 		lastGood = &cand{c.run(mm.base, full, true), c.run(mm.v, full, true)}
 	}
-	rep := &Replay{Property: "C08", Clause: "same resources, different output", Seed: seed, Scenario: c.name,
+	rep := &Replay{Property: "C08", Clause: "same resources, different output", Seed: seed, Scenario: c.name, Repeat: 6,
 		Runs: []Run{lastGood.a, lastGood.b}, Detail: map[string]string{"command": mm.cmdDesc(), "variation": mm.v.kind, "documents_kept": fmt.Sprint(len(keep))}}
 	_, v := runReplay(rep)
 	if v.Infra != "" || !v.Violated {
